@@ -19,6 +19,7 @@ CHECKS = {
  "C08": ("(data set, sort transform) states: every sortable MEASURE / MARGINAL / strand keyword enumerated from the library's enums x opposing element / opposing insertion / marginal / label / univariate types x directions x fixed lists x hidden elements, rows, columns and strands, with plain and difference subtotals, plus unresolvable keys; sort keys are read from the PUBLIC measure of an untransformed run; checks membership, subtotal-group position, fixed brackets, monotonicity with NaN last in payload order, fallback to the anchored payload order", "4/C08"),
  "C05": ("relation between two runs of the library: (data set, order x fixed lists with repeats/overlap x hide subset x prune flag on rows AND columns, insertions incl. a difference present) states on non-square CAT x CAT (weighted, squared weights, numeric), CAT x MR, MR x CAT, an x6-amplified table and strands; EVERY public output found by introspection (about 120 per slice) must equal the untransformed output re-indexed by the reported orders, position-valued outputs renumbered, scalars unchanged, no vector listed twice, extents = shape", "4/C05"),
  "C10": ("for every (data set, mirrored transform config) state the tabulator emits A x B and B x A of the same respondents (CAT x CAT incl. numeric, CAT_DATE x CAT, CAT x MR / MR x CAT, MR x MR, CA both orientations); output pairs found by introspection (row_*<->column_*, rows_*<->columns_*, index lists, masks, orders) must be equal / transposed and direction-free outputs must be transposes", "4/C10"),
+ "C06": ("differential over (data set, transform config) states: each partition of a 3-D cube (table = CAT with the missing category first/mid/last, MR, CA items; rows x columns = CAT/MR pairings) must equal on EVERY introspected public output the library's 2-D analysis of the respondents restricted by the model to table element k; CA-as-0th strands = univariate analysis of the sub-variable, partition sets line up cube by cube, tab-book sets, inflated numeric-summary cubes keep every value", "4/C06"),
  "C01": ("every multiset of <=N respondents over each schema's answer-profile alphabet is tabulated into a server payload and the real Cube/partition outputs are compared cell by cell with a respondent-loop oracle; covers all type pairings, missing-category positions, 1-D/2-D/3-D, weighted, numeric and numeric-array responses", "4/C01"),
 }
 PENDING = {}
